@@ -27,7 +27,7 @@ Definition d_ns : list node := Eval vm_compute in [NData (Some 8%N) [(0%nat, pe 
 Lemma d_hyps : reserved_free [] /\ canonical (List.length (@nil text)) d_ns /\ data_static_ok d_ns /\ consts_asm_free d_ns /\ matches_kinded true [] d_ns.
 Proof.
   split; [apply reserved_free_by_computation; reflexivity|]. split.
-  { split; [constructor|]. split; [intros s []|reflexivity]. }
+  { split; [constructor|]. split; [intros s []|]. split; [reflexivity|constructor]. }
   split.
   { intros w el d e Hn He _. destruct Hn as [Hn|[]]. inversion Hn; subst. destruct He as [He|[]]. inversion He; subst. vm_compute. reflexivity. }
   split; [intros s e [H|[]]; discriminate H|].
@@ -57,7 +57,7 @@ Definition a_ns : list node := Eval vm_compute in [NRes 0 (pe "fwd - fwd + 2"); 
 Lemma a_hyps : reserved_free a_names /\ canonical (List.length a_names) a_ns /\ data_static_ok a_ns /\ consts_asm_free a_ns /\ matches_kinded true a_defs a_ns.
 Proof.
   split; [apply reserved_free_by_computation; reflexivity|]. split.
-  { split; [repeat constructor; cbn; intuition discriminate|]. split; [|reflexivity].
+  { split; [repeat constructor; cbn; intuition discriminate|]. split; [|split; [reflexivity|repeat constructor; cbn; intuition]].
     intros s Hs. cbn in Hs. destruct Hs as [<-|[<-|[]]]; cbn; lia. }
   split; [intros w el d e Hn; cbn in Hn; repeat (destruct Hn as [Hn|Hn]; try discriminate Hn); destruct Hn|].
   split; [intros s e Hn; cbn in Hn; repeat (destruct Hn as [Hn|Hn]; try discriminate Hn); destruct Hn|].
@@ -99,7 +99,7 @@ Definition p_ns : list node := Eval vm_compute in [NConst 0 (pe "5"); NRes 0 (pe
 Lemma p_hyps : reserved_free p_names /\ canonical (List.length p_names) p_ns /\ data_static_ok p_ns /\ consts_asm_free p_ns /\ matches_kinded true p_defs p_ns.
 Proof.
   split; [apply reserved_free_by_computation; reflexivity|]. split.
-  { split; [repeat constructor; cbn; intuition discriminate|]. split; [|reflexivity].
+  { split; [repeat constructor; cbn; intuition discriminate|]. split; [|split; [reflexivity|repeat constructor; cbn; intuition]].
     intros s Hs. cbn in Hs. destruct Hs as [<-|[<-|[]]]; cbn; lia. }
   split; [intros w el d e Hn; cbn in Hn; repeat (destruct Hn as [Hn|Hn]; try discriminate Hn); destruct Hn|].
   split.
